@@ -427,6 +427,38 @@ Example nonempty_submatch_example :
   /\ OnlyTerminatorsOrEmpty ml_env two_line_sunk (3, 4) /\ TouchesNoLine ml_env two_line_sunk (4, 4).
 Proof. vm_compute. repeat split; try reflexivity. discriminate. Qed.
 
+(* ... and a submatch that is plain — non-empty, inside the block, without a terminator byte, not starting
+   with a CR under --crlf — has content on exactly one line, so it gets exactly one record; hence for an
+   event all of whose submatches are plain the number of multi-line -o records IS its number of submatches
+   (its share of count_submatches = --count-matches = JSON submatches, theorem 5) *)
+Theorem plain_submatch_gets_exactly_one_only_matching_record :
+  forall env sk m,
+    fst m < snd m -> snd m <= length (k_bytes sk) ->
+    (forall p, fst m <= p < snd m -> nth_error (k_bytes sk) p <> Some (lt_byte (e_lt env))) ->
+    (e_lt env = LTCrlf -> nth_error (k_bytes sk) (fst m) <> Some 13%N) ->
+    pieces_of env sk (block_lines env sk) m = 1.
+Proof. exact plain_submatch_has_one_piece. Qed.
+Print Assumptions plain_submatch_gets_exactly_one_only_matching_record.
+
+Theorem only_matching_multi_line_count_is_count_submatches :
+  forall find_at cfg env path m l,
+    e_multi env = true -> st_only_matching cfg = true ->
+    range_ok find_at env (m_buf m) (m_re m) ->
+    successive find_at env (m_buf m) (m_rs m) (m_re m) = Some l ->
+    let subs := submatches_of (m_buf m) (m_rs m) (m_re m) l in
+    let sk := sunk_of m subs in
+    subs <> [] -> Forall (plain_submatch env (m_bytes m)) subs ->
+    length (om_block_records cfg env path sk (block_lines env sk) 0) = nsub find_at env m.
+Proof. exact only_matching_multi_line_plain_event. Qed.
+Print Assumptions only_matching_multi_line_count_is_count_submatches.
+
+(* non-vacuity: "aXaXa\nb\na\n" block of theorem 8, pattern a: three plain submatches, three records *)
+Example plain_event_example :
+  length (om_block_records cfg_only ml_env None (sunk_of (mkSM ml_buf 0 6 (Some 1) 0) [(0, 1); (2, 3); (4, 5)])
+            (block_lines ml_env (sunk_of (mkSM ml_buf 0 6 (Some 1) 0) [(0, 1); (2, 3); (4, 5)])) 0) = 3 /\
+  nsub a_find ml_env (mkSM ml_buf 0 6 (Some 1) 0) = 3.
+Proof. vm_compute. repeat split; reflexivity. Qed.
+
 Check only_matching_multi_line_records :
   forall cfg env path sk w,
     st_only_matching cfg = true -> k_matches sk <> [] -> spans_ordered 0 (k_matches sk) ->
